@@ -6,7 +6,7 @@ CROSSHAIR = ["crosshair/c13_contracts.py"]       # second engine, thorough tier
 EXPLANATION = ("Inductive step from the state after an arbitrary number n of requests (n symbolic, unbounded) plus a periodicity lemma (ten requests restore the state, "
                "checked observationally), plus bounded model checking of every operation string through the public API with symbolic start values.")
 BOUNDS = {"quick": "inductive step: any n >= 0, any start values; BMC: all 2^d op strings over {next, set(v)} for every depth d <= 6 with symbolic v",
-          "thorough": "inductive step as quick; BMC for every depth d <= 12 (4096 op strings at depth 12, start values symbolic)"}
+          "thorough": "long runs of 70,000 requests (beyond 8- and 16-bit counter widths), with and without periodic start updates; inductive step as quick; BMC for every depth d <= 12 (4096 op strings at depth 12, start values symbolic)"}
 OUTSIDE = "the inductive argument assumes nothing; histories beyond the BMC depth are covered only by the inductive step + periodicity lemma"
 ASSUMPTIONS = []
 
@@ -21,6 +21,11 @@ def _jobs(tier):
           dict(name="step", fn="step", args=[], collect_models=3, expect=["n-th sequence == start + n mod 10", "update keeps the counter"]),
           dict(name="wrap", fn="wrap", args=[], collect_models=2, expect=["state after r+10 requests == state after r requests"]),
           dict(name="start_kinds", fn="start_kinds", args=[], collect_models=1)]
+    # long runs: the inductive step argues from observational equivalence after ten requests; a hidden counter that only
+    # wraps at a machine width (seed C13j: & 0xFF) needs the run itself
+    for n, upd in ([(300, 0), (300, 7), (1100, 0)] if tier == "quick" else [(300, 0), (300, 7), (1100, 0), (1100, 13), (70000, 0), (70000, 1000)]):
+        js.append(dict(name=f"long_run[{n},update every {upd}]", fn="long_run", args=[n, upd], collect_models=1,
+                       expect=["request 0 of a long run == start in force + n mod 10"]))
     for d in range(1, dmax + 1):
         js.append(dict(name=f"history[{d}]", fn="history", args=[d], collect_models=2, expect=["final request"],
                        split_at=(64 if d >= 9 else None)))
